@@ -77,5 +77,33 @@ def extra_compare(ds, impl, model, spec):
     return fails
 
 
+def writers_under_race_detector(rep, scratch, tier):
+    """Both writers (and the twice-flushed / half-way written paths) on a dataset with thousands of
+    bitmaps, in the harness built with -race: the writers start goroutines of their own
+    (optimize), whose mistakes change the stored bytes only on some schedules."""
+    import re
+    from . import core
+    nv = 3000 if tier == "quick" else 20000
+    rows = [{b"a": b"v%05d" % (i % nv), b"b": b"%d" % (i % 7)} for i in range(nv * 2)]
+    ds = dp.Dataset("rw", rows, "many-bitmaps")
+    lines = ds.lines()
+    for rnd in range(3):
+        for w in ("mem", "mem2", "mem3", "memr", "big", "memdb"):
+            lines.append("SCHEMA rw.s%d%s rw %s" % (rnd, w, w))
+            lines.append("QUERY rw.q%d%s rw %s ondemand 0 %s GB 0" % (rnd, w, w, dp.enc_expr(dp.e_eq(b"a", b"v%05d" % (rnd * 7)))))
+        lines += ["DROP rw"] + (ds.lines() if rnd < 2 else [])
+    path = scratch.path("c05-race.txt")
+    open(path, "w").write("\n".join(lines) + "\n")
+    out, rc, err = core.run_impl(scratch, "dp", path, race=True, timeout=900, env={"GORACE": "halt_on_error=1 exitcode=66"})
+    races = len(re.findall(r"WARNING: DATA RACE", err))
+    if races or rc != 0:
+        m = re.search(r"WARNING: DATA RACE.*?(?=\n==================|\Z)", err, re.S)
+        rep.violation("monitor:race", "writing an index of %d bitmaps (all writer paths) in the harness built with -race: %d data race report(s), harness exit %s" % (nv + 7, races, rc),
+                      {"first_race_report": (m.group(0) if m else err[-1500:])[:3000], "how": "vlib/c05.py writers_under_race_detector"})
+    rep.coverage["writers_under_race_detector"] = {"bitmaps": nv + 7, "rounds": 3, "race_reports": races, "exit": rc}
+
+
 def run(rep, scratch, tier, seed, replay=None):
     dpcheck.run_focus(rep, scratch, tier, seed, replay, "roundtrip", PID, extra_lines=extra_lines, extra_compare=extra_compare)
+    if not replay:
+        writers_under_race_detector(rep, scratch, tier)
